@@ -6,6 +6,36 @@ ROOT = os.path.dirname(os.path.dirname(os.path.abspath(__file__)))
 
 # id -> (technique, level text, level note, design section)
 CHECKS = {
+    "C01": (
+        "runtime monitor: generated transaction histories through report::process, judged by a reference book-keeping model (accept / reject / may / unspecified), hook events as branch evidence",
+        "10^5 (quick) / 6*10^6 (thorough) ledgers whose last transaction is shaped onto each branch of the balance predicate (exact zero, sub-unit offsets around the half-even rounding boundary, zero next to non-zero, two commodities same/opposite sign, costs, lots, expressions, omitted amounts) run through the real report::process; acceptance, the transaction named in the diagnostic and stored amounts are compared with an exact-rational reference model. Held on the executions produced; hook counters show every branch of check_balance was driven.",
+        "Trusted: harness/src/model/book.rs and q.rs (exact rationals); ill-formed postings and the implied-exchange case are unspecified by the statement and only checked for no-crash.",
+        "4/C01",
+    ),
+    "C02": (
+        "runtime monitor: assertion-heavy histories through report::process; reference model replays postings in file order; diagnostics parsed for position, computed balance and difference",
+        "Assertions derived from the model's running balances (true, off by one unit, true one posting earlier, bare zero, foreign commodity), several per account and transaction, after assigned and inferred amounts, on multi-commodity accounts; a ledger must be accepted iff all are true at their position and the failure diagnostic must point at the posting line and report the model's balance and difference.",
+        "Trusted: the reference model; the rendered diagnostic format (`--> path:line:col`, `balance assertion off by D, computed balance is B`). One open known finding (inferred amount applied after siblings).",
+        "4/C02",
+    ),
+    "C03": (
+        "runtime monitor: omitted / assigned amounts at every position, judged by the reference model on Ledger::transactions() and Ledger::balance()",
+        "Inferred posting amounts (multi-commodity), assigned amounts (X minus previous balance, bare zero), final balances of every account, and the rejection of two unconstrained postings and of `= 0` over several commodities are compared exactly with the reference model over 10^5 / 6*10^6 generated histories.",
+        "Trusted: the reference model; exact comparison is possible because generated values have finite decimal expansions well inside the Decimal range.",
+        "4/C03",
+    ),
+    "C05": (
+        "runtime monitor: grammar-driven generator from doc/syntax.md, three oracles (intended tree, parse∘format = parse, format idempotent), greedy feature minimisation for violation classes",
+        "Texts covering every production of doc/syntax.md with hostile whitespace, CRLF, EOF-terminated last lines and Unicode are parsed and formatted by the real code; the parsed entries must equal the generator's intended tree, formatting must preserve the canonical meaning dump and be byte-idempotent. 4*10^5 (quick) / 2*10^7 (thorough) texts.",
+        "Trusted: my reading of doc/syntax.md (narrowings listed in the evidence rule) and the canonical dump in harness/src/gen/syntax.rs.",
+        "4/C05",
+    ),
+    "C06": (
+        "runtime monitor: crash/hang/abort observer around hostile inputs (all prefixes, token mutations, random Unicode, zeros in every number slot, include graphs, deep nesting) in sacrificial workers with a per-case CPU limit, plus black-box CLI runs",
+        "Every operation named by the property (parse, format, load, process, balance/-X/ranges, register, accounts, eval; in-process and through the real binary) is run on ~10^6 (quick) / 5*10^7 (thorough) hostile inputs with integer-overflow and debug-assert traps on; any panic, abort, stack overflow, signal or CPU-limit hit is a violation with the input as witness.",
+        "Hang = 20 CPU-seconds on an input <= 64 KiB; decimal-range overflows (rust_decimal's own overflow panics) are outside the statement's proviso and are counted, not reported. Open known findings: stack overflow on ~10^4 nested parentheses.",
+        "4/C06",
+    ),
     "C07": (
         "runtime monitor: exhaustive short strings + random long literals through the real scanner/printer, judged by an independent recogniser; okane format echo",
         "Every string over {0,1,5,9,',','.','-'} up to length 8 (quick) / 10 (thorough) and over the full 13-symbol alphabet up to 6 / 7, plus random near-valid literals up to 45 digits and literals embedded in every syntactic position, are pushed through PrettyDecimal::from_str/to_string, the ledger parser and `okane format`; an independent recogniser with exact (mantissa, scale) decides accept/reject/value. Exhaustive below the stated lengths, sampled above.",
